@@ -76,9 +76,9 @@ type Ledger struct {
 	AccessFaults map[int]string
 	accesses     int
 	accessLog    []AccessCall
-	NoAccessLog  bool // long stress runs: do not retain the access log
-	label  atomic.Value // string
-	NoHash bool         // do not read CreateRandom secrets back (keeps mprotect traffic unchanged)
+	NoAccessLog  bool         // long stress runs: do not retain the access log
+	label        atomic.Value // string
+	NoHash       bool         // do not read CreateRandom secrets back (keeps mprotect traffic unchanged)
 }
 
 // LedCall is one creation call on the monitored factory.
